@@ -80,8 +80,17 @@ type PP struct {
 	M    map[string]**PP `json:"m,omitempty"`
 }
 
+// Level is a defined byte type: encoding/json writes a []Level as base64 text, like []byte.
+type Level uint8
+type Levels struct {
+	L []Level            `json:"l"`
+	M map[string][]Level `json:"m,omitempty"`
+	N [][]Level          `json:"n"`
+	B Level              `json:"b"`
+}
+
 var named = map[string]reflect.Type{
-	"PP":   reflect.TypeOf(PP{}),
+	"PP": reflect.TypeOf(PP{}), "Levels": reflect.TypeOf(Levels{}),
 	"EmbA": reflect.TypeOf(EmbA{}), "EmbB": reflect.TypeOf(EmbB{}), "Node": reflect.TypeOf(Node{}), "MutA": reflect.TypeOf(MutA{}), "MutB": reflect.TypeOf(MutB{}), "Tree": reflect.TypeOf(Tree{}),
 }
 
@@ -293,7 +302,7 @@ func (g *gctx) typ(depth int, inContainer bool) *TD {
 		}
 		return &TD{K: k}
 	case 4:
-		n := rapid.SampledFrom([]string{"Node", "MutA", "Tree", "EmbA", "PP"}).Draw(g.t, "named")
+		n := rapid.SampledFrom([]string{"Node", "MutA", "Tree", "EmbA", "PP", "Levels"}).Draw(g.t, "named")
 		if n != "EmbA" {
 			g.feats["recursive"] = true
 		}
